@@ -39,6 +39,8 @@ type Thread struct {
 	Panic    string
 	delayed  bool // suspended by a DELAY deviation
 	lastKind string
+	epoch    int // scheduler step at which the pending operation was first seen (FIFO fairness of the default schedule)
+	seen     bool
 }
 
 // Point is one scheduling point of an execution.
@@ -316,6 +318,10 @@ func Run() (res Result) {
 				native = true
 				continue
 			}
+			if !th.seen {
+				th.seen = true
+				th.epoch = S.Steps
+			}
 			if th.delayed {
 				continue
 			}
@@ -361,16 +367,14 @@ func Run() (res Result) {
 			S.mu.Unlock()
 			return
 		}
-		sort.Slice(en, func(i, j int) bool { return en[i].Key < en[j].Key })
-		if S.cur != nil {
-			for i, th := range en {
-				if th == S.cur {
-					copy(en[1:i+1], en[0:i])
-					en[0] = th
-					break
-				}
+		// default schedule: the operation that has been pending longest runs first (FIFO, like a fair run queue);
+		// operations first seen at the same scheduling step are ordered by lineage key
+		sort.Slice(en, func(i, j int) bool {
+			if en[i].epoch != en[j].epoch {
+				return en[i].epoch < en[j].epoch
 			}
-		}
+			return en[i].Key < en[j].Key
+		})
 		names := make([]string, 0, len(en)+2)
 		for _, th := range en {
 			names = append(names, desc(th))
@@ -414,6 +418,7 @@ func Run() (res Result) {
 			}
 			th.lastKind = th.pending.Kind
 			th.pending = nil
+			th.seen = false
 			close(th.wake)
 			S.mu.Unlock()
 		case choice == timeIdx:
